@@ -41,6 +41,8 @@ type Opts struct {
 	// OnFlush, when set, performs the flush of a Flush step itself (C08) and
 	// returns the network instances that were emptied.
 	OnFlush func(s *drive.Srv, m *model.RIB, step int, st hgen.Step, observe func(when string) bool, v *ev.Verdict) (flushed []string, ok bool)
+	// Final is called once after the last step, while the session is still open.
+	Final func(s *drive.Srv, m *model.RIB, v *ev.Verdict)
 	// AfterBatch is called at every observation point.
 	AfterBatch func(s *drive.Srv, m *model.RIB, v *ev.Verdict, when string)
 }
@@ -359,6 +361,9 @@ func RunHistory(h hgen.History, o Opts) (*ev.Verdict, *l1.Trace) {
 			tr.Failed++
 			return v, tr
 		}
+	}
+	if o.Final != nil && len(v.Findings) == 0 {
+		o.Final(s, m, v)
 	}
 	return v, tr
 }
